@@ -116,6 +116,7 @@ def run(ctx):
            clause_text='unbind(v, s) removes v iff it is bound and occurs in s; otherwise a ParseError and no change (no vacuous quantifier)')
     hierarchy(ctx)
     bounded_strings(ctx)
+    bounded_scope(ctx)
     bounded_misc(ctx)
     ctx.replayers['C13.'] = lambda r: dict(reproduced=None, detail='see counterexample / meta')
 
@@ -158,6 +159,28 @@ def bounded_strings(ctx):
         if key in seen: continue
         seen.add(key)
         ctx.bounded_failure(f"C13.bounded.{f['notation']}", f"{f['notation']} parser on {f['input']!r}: {f['problem']}", f, instance=repr(f['input']))
+
+def bounded_scope(ctx):
+    "binding discipline: trees built without regard to scoping, rendered in both notations, real parser vs reference grammar"
+    from bounded import parsing as BP
+    preds = {(0, 0): 1, (1, 0): 2}
+    jobs = []; distinct = 0
+    for notation in ('polish', 'standard'):
+        strings = sorted({N.render(notation, t) for t in BP.scope_family(2)})
+        distinct += len(strings)
+        for i in range(0, len(strings), 4000): jobs.append((notation, strings[i:i + 4000], preds, False))
+    total = 0; fails = []
+    for job, (n, bad) in zip(jobs, pmap(_chunk, jobs)):
+        total += n
+        for s_, d in bad: fails.append(dict(notation=job[0], input=s_, predicates={f'{k[0]},{k[1]}': v for k, v in job[2].items()}, auto_preds=False, problem=d))
+    ctx.bounded_part(evaluations=total, distinct_nontrivial=distinct, rule='every tree of depth <= 2 (plus one unary layer) over 8 leaves (Fx, Fy, Fm, Gxy, Gxm, x=x, y=m, a), negation, the prefixes (all x) (all y) (some x) and conjunction, built WITHOUT regard to scoping and rendered in both notations: the real parser accepts exactly the closed, non-vacuous, singly-bound ones (reference grammar), with the same denotation, and rejects the rest with ParseError; distinct = distinct strings',
+                     bound='tree depth 2 + one unary layer, both notations', samples=[dict(notation='polish', input='KVxFxVxFm'), dict(notation='standard', input='(LxFx&LxFa)')] + fails[:3], label='binding discipline on structured inputs')
+    seen = set()
+    for f in fails:
+        key = (f['notation'], f['problem'].split(':')[0][:30])
+        if key in seen: continue
+        seen.add(key)
+        ctx.bounded_failure(f"C13.bounded.scope.{f['notation']}", f"{f['notation']} parser on {f['input']!r}: {f['problem']}", f, instance=repr(f['input']))
 
 def bounded_misc(ctx):
     "history independence, deep nesting, digit limit, random mutated strings"
